@@ -15,8 +15,7 @@ What is modelled
   `fnScalar` over per-function records, Asm/Data.lean — and the list functions `reverse append include
   sort`); a call of one of the four other registered functions (`unmodelledFns`: `inspect`, `time`,
   `time?`, `zone` — stdout, the clock, the zone database) makes the whole run `unmodelled`; so do, inside
-  the modelled functions: non-ASCII text, `string` with a format or of a list/map, `float` of a text that is
-  not 1–15 digits, `int` of a float outside int64, `sort` of more than 12 elements;
+  the modelled functions: non-ASCII text, `string` with a format or of a list/map, `float` of a text with more than 40 digits or that may spell an infinity, NaN or hexadecimal float, `int` of a float outside int64, `sort` of more than 12 elements;
 * JSONPath arguments: ONLY `$`/`@` followed by member names (`.name`), indexes (`[n]`) and a final
   wildcard (`.*`, for reading only). Any other path text makes the run `unmodelled`; the general
   JSONPath engine (jp.Get/First/Set) is outside this model.
